@@ -120,10 +120,6 @@ package lua
 //@ assume rawFrameFuncName only reads the calling frame's code to guess a name (not verified)
 //@ noraise
 //@ modifies nothing
-//@ trusted newApiErrorS [C17]
-//@ assume newApiErrorS allocates an error value
-//@ noraise
-//@ modifies nothing
 
 //@ define whatOf(dbg *Debug, f *LFunction) string = ite(dbg.frame != nil && dbg.frame.Parent == nil, "main", ite(f.IsG, "G", ite(dbg.frame != nil && dbg.frame.TailCall > 0, "tail", "Lua")))
 //@ func (*LState).GetInfo [C17]
